@@ -1070,6 +1070,10 @@ func helperStructField(c *Ctx, v ssa.Value) []ssa.Value {
 		if last := ret.Results[len(ret.Results)-1]; len(ret.Results) > 1 && last.Type().String() == "error" && !isNilConst(last) {
 			continue
 		}
+		// the zero struct (`return T{}, false`) contributes no stored value
+		if k, isK := ret.Results[idx].(*ssa.Const); isK && k.Value == nil {
+			continue
+		}
 		ld, ok := ret.Results[idx].(*ssa.UnOp)
 		if !ok {
 			return nil
